@@ -191,7 +191,31 @@ impl Format {
                 if idx == prev_idx
                     && (prev_item.second_sep_char.is_none() || prev_item.second_sep_char_is(char))
                 {
+                    // The sign of an offset that follows the separator of the previous token is skipped here.
+                    if cur_token == Token::OffsetHours && char == '-' {
+                        offset_sign = -1;
+                    }
                     prev_idx += char.len_utf8();
+                    continue;
+                }
+
+                if cur_token == Token::OffsetHours && char == ':' && !is_last {
+                    // `%z` is a single item printed as `+HH:MM`: store the hours and read the minutes
+                    // with the same item, whose separators follow the minutes.
+                    match lexical_core::parse::<i32>(s[prev_idx..idx].as_bytes()) {
+                        Ok(val) => {
+                            cur_token.value_ok(val)?;
+                            decomposed[7] = val;
+                        }
+                        Err(err) => {
+                            return Err(HifitimeError::Parse {
+                                source: ParsingError::Lexical { err },
+                                details: "could not parse numerical",
+                            });
+                        }
+                    }
+                    cur_token = Token::OffsetMinutes;
+                    prev_idx = idx + char.len_utf8();
                     continue;
                 }
 
